@@ -209,6 +209,15 @@ def run(run, tier):
                 if xf - h > 0:
                     spec_ok = spec_ok and abs((psi(xf + h) - psi(xf - h)) / (2 * h) - psiP(xf)) < 1e-5 * max(1, abs(psiP(xf))) \
                         and abs((psiP(xf + h) - psiP(xf - h)) / (2 * h) - psiDP(xf)) < 1e-5 * max(1, abs(psiDP(xf)))
+                # psi, psi', psi'' are functions of the distribution they were BUILT from: refilling the caller's dict afterwards
+                # (a parameter sweep reusing one dict) must not change them
+                xf_ = float(x); before = (float(psi(xf_)), float(psiP(xf_)), float(psiDP(xf_))); keep_ = dict(Pk)
+                Pk.clear(); Pk.update({1: 0.25, 4: 0.75})
+                after = (float(psi(xf_)), float(psiP(xf_)), float(psiDP(xf_)))
+                Pk.clear(); Pk.update(keep_)
+                if not all(C.close(a_, b_) for a_, b_ in zip(before, after)):
+                    spec_ok = False
+                    impl.append('the closures built from Pk changed their values at x=%s from %r to %r when the dict was refilled afterwards' % (x, before, after))
                 impl = ('OK', impl)
                 # the helpers are functions of the graph AS IT IS NOW: move one edge of the same graph object (same number of nodes and
                 # edges, another degree sequence) and ask again -- nothing remembered from the first call may leak into the answer
